@@ -2,6 +2,7 @@
 //!   perpverif run <scenarios.ndjson> <trace.ndjson>
 //!   perpverif random <driver> <seed> <count> <trace.ndjson> [maxops]
 //!   perpverif sint <out.ndjson>
+mod bigvamm;
 mod drivers;
 mod msgs;
 mod probe;
@@ -141,6 +142,23 @@ impl Runner {
                     "a": {"vamm": v, "side": side, "margin": n, "leverage": 100, "limit": 0},
                     "funds": op["funds"].as_i64().unwrap_or(0)}))
             }
+            "open_lim" => {
+                // an OpenPosition whose slippage limit is the vAMM's own quote for the trade plus an offset
+                let v = op["v"].as_str().unwrap_or("vamm1").to_string();
+                let t = op["s"].as_str().unwrap_or("tr1").to_string();
+                let side = op["side"].as_str().unwrap_or("buy").to_string();
+                let margin = op["margin"].as_i64().unwrap_or(100);
+                let lev = op["leverage"].as_i64().unwrap_or(100);
+                let d = 10i64.pow(self.w.dec);
+                let notional = margin * lev / d;
+                let dir = if side == "buy" { "add" } else { "rem" };
+                let q = self.w.build_query(&v, "input_amount", &json!({"dir": dir, "amount": notional})).ok()?;
+                let res = self.w.query_raw(&v, &q).ok()?;
+                let limit = (crate::world::num(&res) + op["off"].as_i64().unwrap_or(0)).max(0);
+                Some(json!({"k": "tx", "c": "engine", "m": "open_position", "s": t,
+                    "a": {"vamm": v, "side": side, "margin": margin, "leverage": lev, "limit": limit},
+                    "funds": op["funds"].as_i64().unwrap_or(0)}))
+            }
             "oracle_rel" => {
                 let v = op["v"].as_str().unwrap_or("vamm1").to_string();
                 let interval = op["interval"].as_i64().unwrap_or(3600);
@@ -158,7 +176,7 @@ impl Runner {
     /// execute one op; returns (ok, fault_fired)
     pub fn op(&mut self, op: &Value) -> (bool, bool) {
         let k = op["k"].as_str().unwrap_or("tx");
-        if k == "flatten" || k == "oracle_rel" {
+        if k == "flatten" || k == "oracle_rel" || k == "open_lim" {
             return match self.resolve(op) {
                 Some(o) => self.op(&o),
                 None => (false, false),
@@ -415,6 +433,16 @@ fn main() {
             }
             out.flush().unwrap();
             println!("{{\"scenarios\": {}}}", n);
+        }
+        "bigvamm" => {
+            // production-scale direct vAMM histories (limb-encoded amounts) for spec/trace/TraceBig.tla
+            let seed: u64 = args[2].parse().unwrap_or(1);
+            let per_pool: u64 = args[3].parse().unwrap_or(5);
+            let maxops: u64 = args[4].parse().unwrap_or(30);
+            let mut out = BufWriter::new(File::create(&args[5]).expect("trace file"));
+            let (n, e) = bigvamm::run(seed, per_pool, maxops, &mut out);
+            out.flush().unwrap();
+            println!("{{\"scenarios\": {}, \"events\": {}}}", n, e);
         }
         "sint" => {
             let mut out = BufWriter::new(File::create(&args[2]).expect("out file"));
